@@ -474,6 +474,68 @@ func (c *Ctx) c08Excel() {
 			c.Fail("oracle", "C08_excel_precedence", map[string]interface{}{"formula": tc.formula}, fmt.Sprintf("%s = %q (err %v), Excel gives %q", tc.formula, res, err, tc.want), "")
 		}
 	}
+	// the six comparisons on operands of one type (same-case text, numbers, booleans): every ordering of the pair,
+	// as literals, as cell contents and as results of & / arithmetic
+	f.SetCellValue("Sheet1", "B1", "pear")
+	f.SetCellValue("Sheet1", "B2", "pear")
+	f.SetCellValue("Sheet1", "B3", "plum")
+	f.SetCellValue("Sheet1", "B4", "")
+	b2s := map[bool]string{true: "TRUE", false: "FALSE"}
+	type opd struct {
+		text string
+		rank int // order within its class
+	}
+	classes := [][]opd{
+		{{"\"pear\"", 1}, {"B1", 1}, {"B2", 1}, {"\"pe\"&\"ar\"", 1}, {"B3", 2}, {"\"plum\"", 2}, {"\"pea\"", 0}, {"\"\"", -1}},
+		{{"2", 2}, {"A1", 2}, {"(1+1)", 2}, {"A2", 3}, {"3", 3}, {"(-1)", -1}, {"0", 0}, {"2.5", 2}},
+		{{"TRUE", 1}, {"FALSE", 0}, {"(1=1)", 1}, {"(1=2)", 0}},
+	}
+	for ci, cl := range classes {
+		for _, l := range cl {
+			for _, r := range cl {
+				lr, rr := float64(l.rank), float64(r.rank)
+				if ci == 1 { // 2.5 lies strictly between 2 and 3
+					if l.text == "2.5" {
+						lr = 2.5
+					}
+					if r.text == "2.5" {
+						rr = 2.5
+					}
+				}
+				for _, op := range []string{"=", "<>", "<", "<=", ">", ">="} {
+					var want bool
+					switch op {
+					case "=":
+						want = lr == rr
+					case "<>":
+						want = lr != rr
+					case "<":
+						want = lr < rr
+					case "<=":
+						want = lr <= rr
+					case ">":
+						want = lr > rr
+					case ">=":
+						want = lr >= rr
+					}
+					for _, wrap := range []string{"%s", "(%s)+1"} {
+						formula := fmt.Sprintf(wrap, l.text+op+r.text)
+						exp := b2s[want]
+						if wrap != "%s" {
+							exp = map[bool]string{true: "2", false: "1"}[want]
+						}
+						f.SetCellFormula("Sheet1", "Z1", formula)
+						res, err := f.CalcCellValue("Sheet1", "Z1")
+						c.Count("comparison-table", true, formula)
+						if err != nil || res != exp {
+							c.Fail("oracle", "C08_excel_semantics", map[string]interface{}{"formula": formula, "cells": "A1=2 A2=3 B1=B2=\"pear\" B3=\"plum\""},
+								fmt.Sprintf("%s = %q (err %v), Excel gives %q", formula, res, err, exp), "")
+						}
+					}
+				}
+			}
+		}
+	}
 }
 
 // aggregates over ranges vs the fold over the typed cells under Excel's rule
